@@ -348,7 +348,7 @@ func TestVerifWriterReplay(t *testing.T) {
 	}
 	events := make([]wEvent, len(in.Cases))
 	var wg sync.WaitGroup
-	sem := make(chan struct{}, min(4, runtime.GOMAXPROCS(0))) // at most 4 builds at a time (shared machine)
+	sem := make(chan struct{}, min(8, runtime.GOMAXPROCS(0))) // bounded number of builds at a time (shared machine)
 	for i := range in.Cases {
 		wg.Add(1)
 		sem <- struct{}{}
